@@ -90,7 +90,16 @@ def check_ph(entry, ph, compnames, prop='C02'):
     eq_num(prop, n, 'BMC Event Log Id', need(entry, 'BMC Event Log Id', n), ph['obmc'], 10)
 
 
+# the action-flag bits the PEL format defines (keys only - the texts are the
+# repo's); a table that loses one of them can no longer display that flag
+DEFINED_ACTION_FLAG_BITS = (0x8000, 0x4000, 0x2000, 0x1000, 0x0800, 0x0400, 0x0100, 0x0020)
+
+
 def action_flag_names(flags):
+    missing = [b for b in DEFINED_ACTION_FLAG_BITS if b not in R.pel_values.actionFlagsValues]
+    if missing:
+        raise Violation('C02.table', 'the action-flag table no longer defines bit(s) %s'
+                        % ', '.join('0x%04X' % b for b in missing), sig='C02.table.action-flags')
     return [name for bit, name in R.pel_values.actionFlagsValues.items() if bit & flags]
 
 
